@@ -4,6 +4,7 @@ package props
 
 import (
 	"fmt"
+	"go.flow.arcalot.io/engine/internal/verif/vsched"
 	"testing"
 
 	"go.flow.arcalot.io/engine/internal/verif/vcase"
@@ -72,7 +73,11 @@ func checkMayRun(ms []*vcase.Model, ans *vrun.Answer) (msg string, forbidden int
 // addStopMotif appends four steps that make "the stop condition fires before the step starts"
 // deterministic: S waits for X and stops if Y; Z needs Y; X can finish only after Z started,
 // i.e. after the pass of the run loop that delivered the stop to S.
-func addStopMotif(c *vcase.Case) {
+//
+// late=true additionally makes S's goroutine late to its blocking receive (single-site delay before
+// the receive in startStage, deployment of S finishing right before Y ends) so that the stop and
+// the run input are both pending when it gets there (finding K31).
+func addStopMotif(c *vcase.Case, late bool) {
 	mk := func(id string) *vcase.Step {
 		return &vcase.Step{ID: id, Kind: "plugin", Op: "op", Input: vcase.MapVal([]string{"key"}, []*vcase.Val{vcase.LitVal(vcase.StrLit(id))})}
 	}
@@ -96,6 +101,18 @@ func addStopMotif(c *vcase.Case) {
 		}
 	}
 	c.Labels = append(c.Labels, "motif:stop-fires-before-start")
+	if late {
+		if c.Script.Deploys == nil {
+			c.Script.Deploys = map[string]vplug.DeployBehaviour{}
+		}
+		c.Script.Deploys["vp://ms"] = vplug.DeployBehaviour{DelayMs: 80}
+		c.Script.Steps["my"] = vplug.Behaviour{Outcome: "success", Gate: "run/deploy-end:vp://ms", GateTimeoutMs: 1500, AfterGateMs: 20}
+		if c.Plan == nil {
+			c.Plan = vsched.Plan{}
+		}
+		c.Plan["plugin/provider.go:runningStep.startStage#15:select"] = vsched.SitePlan{DelayMs: 60}
+		c.Labels = append(c.Labels, "motif:stop-fires-before-start/late-receiver")
+	}
 }
 
 func TestC04(t *testing.T) {
@@ -106,8 +123,11 @@ func TestC04(t *testing.T) {
 	runProperty(t, "C04",
 		func(rt *rapid.T) *vcase.Case {
 			c := vcase.GenCase(rt, p, "C04")
-			if rapid.IntRange(0, 2).Draw(rt, "stopmotif?") == 0 {
-				addStopMotif(c)
+			switch rapid.IntRange(0, 11).Draw(rt, "stopmotif?") {
+			case 0, 1, 2:
+				addStopMotif(c, false)
+			case 3:
+				addStopMotif(c, true)
 			}
 			return c
 		},
